@@ -4,7 +4,7 @@ META = dict(
     engine="E-CRYPTO",
     technique="Lean 4 proof of the keybase as a refinement of a map address->encrypted key (all operation sequences) and of mintkey's armor decision logic over an abstract AEAD/KDF (round-trip law as a field, authenticity as an explicit assumption field) + differential correspondence vs the real crypto/keys Keybase (in-memory DB) and mintkey with the scrypt+AES-GCM verdicts supplied as oracle data",
     level_text="Kernel-checked: a fresh armor decrypts to the identical key with its passphrase (any key, passphrase, non-empty salt); under the authenticity assumption a passphrase deriving another key is always rejected and no keybase operation (export, sign, delete, update) returns/does anything, keybase unchanged; every keybase operation is the specified operation on the abstract map for every operation sequence (lookup = map, listing = domain of the map, sorted, no duplicates; created/imported keys present, deleted keys gone); export->import round trip delivers the identical key. GetCoinbase only ever returns a present key (coinbase_is_present). Counterexample theorem for what is false of the code: passphrases equivalent under HMAC key normalisation open each other's armor. The real keybase and mintkey are run on generated keys/passphrases/armor mutations/op sequences every run and compared with the model and the executable spec.",
-    level_note="PARTIAL by nature: scrypt and AES-256-GCM (the code uses these, not bcrypt/secretbox) are parameters; authenticity of the AEAD and collision-freeness of the KDF cannot be proved and are assumptions (structure AuthAEAD), exercised only by wrong-passphrase and armor-mutation testing. JSON/hex/base64 are an abstract codec with round-trip laws (Go stdlib decodings enter the driver as data). scrypt costs ~0.1 s per evaluation: the quick tier runs ~25 cases (~350 operations), thorough ~200 cases. Trusted: Lean kernel; axioms propext, Classical.choice, Quot.sound; Go harness and driver parser.",
+    level_note="PARTIAL by nature: scrypt and AES-256-GCM (the code uses these, not bcrypt/secretbox) are parameters; authenticity of the AEAD and collision-freeness of the KDF cannot be proved and are assumptions (structure AuthAEAD), exercised only by wrong-passphrase and armor-mutation testing. JSON/hex/base64 are an abstract codec with round-trip laws (Go stdlib decodings enter the driver as data). scrypt costs ~0.1 s per evaluation: the quick tier runs 14 cases incl. three fixed scenarios (~450 operations), thorough ~200 cases. Trusted: Lean kernel; axioms propext, Classical.choice, Quot.sound; Go harness and driver parser.",
 )
 
 
@@ -19,7 +19,7 @@ def run(ctx):
     ctx.assume("AEAD authenticity: a different derived key never opens a ciphertext (AuthAEAD.auth)",
                "distinct HMAC-normal-form passphrases derive distinct scrypt keys",
                "every encryption uses a non-empty salt (16 random bytes in the code)")
-    n = 120 if ctx.thorough else 20
+    n = 120 if ctx.thorough else 14
     ctx.stream("keybase", "c40", "Driver/C40.lean", n=n, timeout=3000)
     if ctx.thorough:
         ctx.stream("keybase-s1", "c40", "Driver/C40.lean", n=80, seed=ctx.seed * 1000003 + 7919, timeout=3000)
